@@ -719,3 +719,10 @@ func integerConstraint(tp *types.TypeParam) string {
 	}
 	return "integer"
 }
+
+// gs.lt: the byte-wise order on strings, a strict total order.
+const strLtDecl = `(declare-fun gs.lt (Str Str) Bool)
+(assert (forall ((a Str)) (! (not (gs.lt a a)) :pattern ((gs.lt a a)))))
+(assert (forall ((a Str) (b Str)) (! (=> (gs.lt a b) (not (gs.lt b a))) :pattern ((gs.lt a b)))))
+(assert (forall ((a Str) (b Str) (c Str)) (! (=> (and (gs.lt a b) (gs.lt b c)) (gs.lt a c)) :pattern ((gs.lt a b) (gs.lt b c)))))
+(assert (forall ((a Str) (b Str)) (! (or (= a b) (gs.lt a b) (gs.lt b a)) :pattern ((gs.lt a b)))))`
